@@ -331,6 +331,19 @@ def pool_expiry_family(tier="quick"):
         f.update(bad)
         s += [f, fin(12), fin(13), {"op": "commit"}]
         out.append(s)
+    # the SAME signed bytes are inscribed again while waiting (block 8): the entry's window starts again.  The predecessor arrives
+    # after the first window has closed and before the second has (block 13 / 17), or after both (block 18)
+    for arrive in (13, 17, 18):
+        s = list(head) + [fin(b) for b in range(3, 8)]
+        again = dict(head[3])
+        again.update({"insc": "pe1b", "hash": "h8", "ts": 108, "txid": "x2b"})
+        s += [again, fin(8)] + [fin(b) for b in range(9, arrive)]
+        hh = "h%d" % arrive
+        s.append({"op": "transact", "signer": "k1", "nonce": 0, "to": "c_s1_0", "ckind": "NULL", "ops": [{"op": "sstore", "s": 1, "v": 1}], "chain": "own",
+                  "insc": "pe9", "idx": 0, "hash": hh, "ts": 100 + arrive, "txid": "x9", "gas": "ample", "enc": "hex"})
+        s.append({"op": "finalise", "ts": 100 + arrive, "hash": hh, "count": 2 if arrive < 18 else 1})
+        s += [fin(arrive + 1), {"op": "commit"}]
+        out.append(s)
     # the predecessor arrives in the last block of the window / one block too late
     for arrive in (11, 12):
         s = list(head) + [fin(b) for b in range(3, arrive)]
